@@ -94,15 +94,6 @@ theorem agrees_of_inv (s : St) (h : Inv s) : Agrees s := by
       | none => cases aget x.iparams n <;> simp
       | some p => cases aget x.iparams n <;> simp
 
-theorem instantiated_classes {s s1 : St} {i : IId} {x : Inst} {n : Name} {p ip : PId}
-    (h : instantiated s i x n p = .ok (s1, ip)) : s1.classes = s.classes := by
-  unfold instantiated at h
-  split at h
-  · simp only [Except.ok.injEq, Prod.mk.injEq] at h; rw [← h.1]
-  · split at h
-    · cases h
-    · simp only [Except.ok.injEq, Prod.mk.injEq] at h; rw [← h.1]; rfl
-
 /-- **C13 (one step).**  Every operation — a namespace read, a class-level assignment on the
 declaring class or on a subclass (copy-on-write), `add_parameter` at any level, instance creation,
 instance assignment, `obj.param[n]` — keeps every cache empty or up to date, unless it is an
